@@ -163,6 +163,17 @@ def ch_job(job):
         labels = [rng.randrange(K) for _ in range(T)]
         if all(labels.count(k) > 0 for k in range(K)):
             break
+    if seed % 3 == 0 and T >= 2 * K:
+        # piecewise-constant labellings (what TICC produces): every cluster one unbroken run, or A..B..A
+        cuts = sorted(rng.sample(range(1, T), K - 1))
+        order = list(range(K))
+        rng.shuffle(order)
+        labels, prev = [], 0
+        for k, c in zip(order, cuts + [T]):
+            labels += [k] * (c - prev)
+            prev = c
+        if seed % 6 == 0 and labels.count(labels[-1]) >= 2:
+            labels[-1] = labels[0]                    # the first cluster comes back at the very end
     X = [[rng.randint(0, 3) for _ in range(C)] for _ in range(T)]
     # translations from the size of the spread up to 1e8 times it (a level far above the spread is where a one-pass
     # "sum of squares minus n * mean^2" dispersion loses every digit; the two-pass definition does not)
